@@ -26,4 +26,4 @@ NOT_APPLICABLE = {}
 
 # Properties whose `--tier thorough` enumeration was trimmed after its last end-to-end run and could not be re-run end-to-end before the end
 # of the session: MANIFEST.json registers the (validated) quick command as their thorough command too.  See DESIGN.md 6.3b.
-THOROUGH_NOT_VALIDATED = {"C01", "C02", "C04", "C05", "C08", "C09", "C14", "C17"}
+THOROUGH_NOT_VALIDATED = {"C01", "C02", "C05", "C08", "C09", "C14", "C17"}
